@@ -4,6 +4,7 @@ package main
 // what reservoir hands to it is captured for the harness.
 
 import (
+	"fmt"
 	"net"
 	"go/types"
 
@@ -67,20 +68,55 @@ func addCrypto(m map[string]Intrinsic) {
 		vm.P.env["c11.pub"] = args[3]
 		vm.P.env["c11.priv"] = args[4]
 		vm.bumpMarker("c11.createcert")
-		return TupleV{vm.byteSliceFromStr(mkStr("DER")), IfaceV{}}
+		// the encodings are opaque, but each byte slice remembers what it encodes (by identity
+		// of its backing array), so that X509KeyPair can do what the real one does: take the
+		// certificate and the key apart again and refuse a key that is not the certificate's
+		der := vm.byteSliceFromStr(mkStr("DER"))
+		vm.P.env[fmt.Sprintf("c11.enc:%d", der.Arr.ID)] = TupleV{snap, args[3]}
+		return TupleV{der, IfaceV{}}
 	}
 	m["crypto/x509.MarshalPKCS8PrivateKey"] = func(vm *VM, fn *ssa.Function, args []Value) Value {
 		vm.P.env["c11.marshalledkey"] = args[0]
-		return TupleV{vm.byteSliceFromStr(mkStr("PKCS8")), IfaceV{}}
+		b := vm.byteSliceFromStr(mkStr("PKCS8"))
+		vm.P.env[fmt.Sprintf("c11.enc:%d", b.Arr.ID)] = TupleV{args[0]}
+		return TupleV{b, IfaceV{}}
 	}
 	m["encoding/pem.EncodeToMemory"] = func(vm *VM, fn *ssa.Function, args []Value) Value {
-		return vm.byteSliceFromStr(mkStr("PEM"))
+		out := vm.byteSliceFromStr(mkStr("PEM"))
+		if blk, ok := args[0].(PtrV); ok && blk.Obj != nil {
+			if inner, ok := vm.getF(blk, "Bytes").(SliceV); ok && inner.Arr != nil {
+				if what, ok := vm.P.env[fmt.Sprintf("c11.enc:%d", inner.Arr.ID)]; ok {
+					vm.P.env[fmt.Sprintf("c11.enc:%d", out.Arr.ID)] = what
+				}
+			}
+		}
+		return out
 	}
 	m["crypto/tls.X509KeyPair"] = func(vm *VM, fn *ssa.Function, args []Value) Value {
 		ct := fn.Signature.Results().At(0).Type()
 		c := vm.zero(ct).(*StructV)
 		f := append([]Value(nil), c.F...)
 		li := fieldIdx(vm, ct, "Leaf")
+		certPEM, okc := args[0].(SliceV)
+		keyPEM, okk := args[1].(SliceV)
+		if okc && okk && certPEM.Arr != nil && keyPEM.Arr != nil {
+			cw, ok1 := vm.P.env[fmt.Sprintf("c11.enc:%d", certPEM.Arr.ID)].(TupleV)
+			kw, ok2 := vm.P.env[fmt.Sprintf("c11.enc:%d", keyPEM.Arr.ID)].(TupleV)
+			if ok1 && ok2 && len(cw) == 2 && len(kw) == 1 {
+				f[li] = cw[0]
+				// documented: "the private key must match the certificate's public key"
+				pub, isIface := cw[1].(IfaceV)
+				key, isKey := kw[0].(IfaceV)
+				if isIface && isKey {
+					pp, ok3 := pub.V.(PtrV)
+					kp, ok4 := key.V.(PtrV)
+					if ok3 && ok4 && pp.Obj != kp.Obj {
+						return TupleV{vm.zero(ct), vm.newErrorStr("tls: private key does not match public key")}
+					}
+				}
+				return TupleV{&StructV{F: f}, IfaceV{}}
+			}
+		}
 		if t, ok := vm.P.env["c11.template"]; ok {
 			f[li] = t
 		}
